@@ -253,6 +253,12 @@ def edge_texts():
             out.append("some i in %s..%s satisfies i > 0" % (lo, hi))
             out.append("for i in 1..2, j in %s..%s return i + j" % (lo, hi))
             out.append("count(for i in (%s)..(%s) return 1)" % (lo, hi))
+    # external function definitions: defined, invoked, passed on
+    for body in ['{java: {class: "java.lang.Math", method signature: "abs(double)"}}', '{pmml: {document: "d", model: "m"}}', "{}", "{java: 1}", "null", "1", '{java: {class: null, method signature: null}}', "x"]:
+        for arg in ("1", "null", '"a"', "[1]", "x: 1"):
+            out.append("(function(x) external %s)(%s)" % (body, arg))
+        out.append("{f: function(a, b) external %s, r: [f(1, 2), f, f = f, string(f), f instance of function<number, number>->number]}.r" % body)
+        out.append("for g in [function(x) external %s] return g(2)" % body)
     # sort() with ordering functions that are not strict weak orders, on lists long enough for every algorithm path
     lists = ["for i in 1..50 return i", "for i in 1..50 return modulo(i * 7, 11)", "for i in 1..21 return -i", "for i in 1..64 return if modulo(i, 3) = 0 then null else i", "for i in 1..30 return \"s\" + string(modulo(i, 4))", "[3, 1, 2]", "[]", "[1]", "nestl", "bigl"]
     orders = ["function(x, y) true", "function(x, y) false", "function(x, y) null", "function(x, y) 1", "function(x, y) modulo(x + y, 3) = 0", "function(x, y) x != y", "function(x, y) x >= y", "function(x, y) modulo(x, 2) < modulo(y, 2)",
